@@ -608,7 +608,7 @@ func TestC07Random(t *testing.T) {
 		if rapid.Bool().Draw(rt, "captive") && kit.PlantCaptive(rt, cfg) {
 			planted = append(planted, "captive-dependency")
 		}
-		if rapid.IntRange(0, 3).Draw(rt, "flip") == 0 && kit.PlantCaptiveFlip(rt, cfg) {
+		if rapid.IntRange(0, 1).Draw(rt, "flip") == 0 && kit.PlantCaptiveFlip(rt, cfg) {
 			planted = append(planted, "provider-made-scoped")
 		}
 		if rapid.IntRange(0, 3).Draw(rt, "samector") == 0 && kit.PlantSameCtor(rt, cfg) {
